@@ -19,8 +19,86 @@ def closure_emits(ctx, b, op):
     return False
 
 
+def deferred_err_edges(ctx, b):
+    """Err edges of a match whose payload is not dealt with in the arm but *stored*: the arm re-wraps it in an Err that is pushed into a
+    vector V, and a later loop takes the items of V one by one and matches every one of them (no way round the loop that misses the
+    match).  Taking such an edge creates no obligation of its own: the Err arm of the later match is where the diagnostics are emitted
+    and the failure is recorded, and that arm is examined like any other.  -> {(bb, succ)}"""
+    from vlib import units
+    out = set()
+    dom = b.dominators()
+    # vectors whose every item is matched in a loop: V -> True
+    matched = set()
+    for nx in b.calls():
+        if (nx.callee or nx.u or "").split("::")[-1] != "next" or not nx.args:
+            continue
+        names, root = units.upstream(b, nx)
+        if root is None or any(n not in ("into_iter", "iter", "iter_mut", "by_ref", "deref_mut", "deref", "borrow_mut") for n in names):
+            continue
+        # the Some edge of the test on next()'s result
+        si = switch_info(b, nx.target) if nx.target is not None else None
+        k = 0
+        cur = nx.target
+        while si is None and cur is not None and k < 4:
+            sc = b.succ(cur)
+            if len(sc) != 1:
+                break
+            cur = sc[0]
+            si = switch_info(b, cur)
+            k += 1
+        if not si or si["kind"] != "disc" or si.get("adt") != "core::option::Option":
+            continue
+        some = [sx for sx, labs in si["edges"].items() if labs == ["Some"]]
+        if not some:
+            continue
+        # a discriminant test on a Result inside the loop that every way back to next() passes
+        for i in b.reachable(some[0]):
+            s2 = switch_info(b, i)
+            if not s2 or s2["kind"] != "disc" or s2.get("adt") != "core::result::Result":
+                continue
+            if nx.bb in b.reachable(some[0], avoid=(i,)) and i != nx.bb:
+                continue        # an iteration can go round without the match
+            matched.add(root)
+    if not matched:
+        return out
+    for bb in b.reachable(0):
+        si = switch_info(b, bb)
+        if not si or si["kind"] != "disc" or si.get("adt") != "core::result::Result":
+            continue
+        for succ, labs in si["edges"].items():
+            if labs != ["Err"]:
+                continue
+            subj = si["subject"]
+            src = None
+            if subj[0] == "call":
+                src = subj[1].dest[0]
+            elif subj[0] == "place":
+                src = subj[1][0]
+            if src is None:
+                continue
+            taint = units.forward(b, {src})
+            ok = False
+            for i, j, s in b.all_stmts():
+                if i not in dom or succ not in dom.get(i, ()):
+                    continue
+                if s[0] == "=" and s[2][0] == "agg" and isinstance(s[2][1], dict) and s[2][1].get("adt") == "core::result::Result" and s[2][1].get("variant") == "Err":
+                    ps = [op_place(o) for o in s[2][2]]
+                    if not any(p is not None and p[0] in taint for p in ps):
+                        continue
+                    t2 = units.forward(b, {s[1][0]})
+                    for c in b.calls():
+                        if c.callee == "alloc::vec::Vec::push" and len(c.args) > 1:
+                            vp, xp = op_place(c.args[0]), op_place(c.args[1])
+                            if vp is not None and xp is not None and xp[0] in t2 and b.root(vp)[0] in matched and not b.root(vp)[1]:
+                                ok = True
+            if ok:
+                out.add((bb, succ))
+    return out
+
+
 def analyse(ctx, b):
     """Explore all paths; state = (emitted, ok_printed, saw_err_arm, nonempty, emit_if_err, ret, bools)"""
+    deferred = deferred_err_edges(ctx, b)
     okstr_dest = set()
     for c in b.calls():
         if c.callee == "core::fmt::Arguments::from_str" and b.const_str(c.args[0]) == "OK\n":
@@ -69,7 +147,7 @@ def analyse(ctx, b):
         if si:
             labs = si["edges"].get(succ, [])
             if si["kind"] == "disc" and si.get("adt") == "core::result::Result":
-                if labs == ["Err"]:
+                if labs == ["Err"] and (bb, succ) not in deferred:
                     sawerr = True
             if si["kind"] == "disc" and si.get("adt") == "core::ops::control_flow::ControlFlow":
                 if labs == ["Continue"]:
